@@ -86,6 +86,20 @@ theorem outsOf_push (tr : Array (Obs ℚ)) (o : Obs ℚ) : outsOf (tr.push o) = 
   rw [Array.toList_push, List.filterMap_append]
   cases h : outOf o <;> simp [List.filterMap, h]
 
+theorem leftsOf_push (tr : Array (Obs ℚ)) (o : Obs ℚ) : leftsOf (tr.push o) = leftsOf tr ++ (leftOf o).toList := by
+  unfold leftsOf
+  rw [Array.toList_push, List.filterMap_append]
+  cases h : leftOf o <;> simp [List.filterMap, h]
+
+@[simp] theorem leftOf_resumed (p : EvId) (r : Resume) (t : ℚ) : leftOf (Obs.resumed p r t) = none := rfl
+@[simp] theorem leftOf_ended (p : EvId) (o : Outcome) (t : ℚ) : leftOf (Obs.ended p o t) = none := rfl
+@[simp] theorem leftOf_out (p : EvId) (i : Int) (t : ℚ) : leftOf (Obs.log p "out" (.int i) t) = some i := by
+  simp [leftOf]
+@[simp] theorem leftOf_lost (p : EvId) (i : Int) (t : ℚ) : leftOf (Obs.log p "lost" (.int i) t) = some i := by
+  simp [leftOf]
+@[simp] theorem outOf_lost (p : EvId) (i : Int) (t : ℚ) : outOf (Obs.log p "lost" (.int i) t) = none := by
+  simp [outOf]
+
 @[simp] theorem outOf_resumed (p : EvId) (r : Resume) (t : ℚ) : outOf (Obs.resumed p r t) = none := rfl
 @[simp] theorem outOf_ended (p : EvId) (o : Outcome) (t : ℚ) : outOf (Obs.ended p o t) = none := rfl
 @[simp] theorem outOf_out (p : EvId) (i : Int) (t : ℚ) : outOf (Obs.log p "out" (.int i) t) = some (i, t) := by
